@@ -222,6 +222,10 @@ func checkC09(e *core.Env) {
 
 	// ---- server parse ----
 	badMD := false
+	// parentIn > 0: the request context already carries a deadline of the server's own (http.TimeoutHandler,
+	// a BaseContext with a deadline); the handler then has the earlier of the two, never one later than the caller's
+	var parentIn time.Duration
+	var parentAt time.Time
 	serve := func(hv string, stream, slow bool) (p *deadlineProbe, tb time.Time, pan string, code int, sb *slowBody) {
 		p = &deadlineProbe{}
 		sc := &Script{Kind: Unary, UnaryReq: &tpb.Message{}, Resp: &tpb.Message{}}
@@ -264,6 +268,13 @@ func checkC09(e *core.Env) {
 		}
 		rec := httptest.NewRecorder()
 		tb = time.Now()
+		if parentIn > 0 {
+			parentAt = tb.Add(parentIn)
+			pctx, pcancel := context.WithDeadline(req.Context(), parentAt)
+			defer pcancel()
+			req = req.WithContext(pctx)
+			e.Count("server_own_deadline", 1)
+		}
 		pan = guard(func() { srv.ServeHTTP(rec, req) })
 		return p, tb, pan, rec.Code, sb
 	}
@@ -302,7 +313,11 @@ func checkC09(e *core.Env) {
 			if overflow || d.Cmp(cap100) > 0 {
 				lower = cap100
 			}
-			if p.h.Before(tb.Add(time.Duration(lower.Int64()))) {
+			earliest := tb.Add(time.Duration(lower.Int64()))
+			if parentIn > 0 && parentAt.Before(earliest) {
+				earliest = parentAt
+			}
+			if p.h.Before(earliest) {
 				e.Violate("server/too-early/"+string(hv[len(hv)-1]), fmt.Sprintf("GRPC-Timeout %q: handler deadline is %v after the request started, want >= %v (wrap-around / truncation)", hv, p.h.Sub(tb), time.Duration(lower.Int64())), hv)
 			}
 			upper := p.entry
@@ -326,7 +341,11 @@ func checkC09(e *core.Env) {
 				}
 				hv := g + string(u)
 				e.Begin("grid", gi, hv)
+				if gi%5 == 2 {
+					parentIn = []time.Duration{time.Minute, 3 * time.Hour, 200 * 24 * time.Hour}[gi/5%3]
+				}
 				judge(hv, stream, gi%8 == 1)
+				parentIn = 0
 				e.Eval(fmt.Sprintf("grid|%c|%s|%v", u, g, stream), true)
 			}
 		}
@@ -355,8 +374,11 @@ func checkC09(e *core.Env) {
 		}
 		e.Note("%q", hv)
 		badMD = r.Intn(12) == 0
+		if r.Intn(5) == 0 {
+			parentIn = pick(r, 30*time.Second, 10*time.Minute, time.Hour, 36*time.Hour, 90*24*time.Hour, 90*365*24*time.Hour)
+		}
 		judge(hv, r.Intn(2) == 0, r.Intn(16) == 0)
-		badMD = false
+		badMD, parentIn = false, 0
 		cls := "malformed"
 		if _, ok := parseTimeoutExact(hv); ok {
 			cls = fmt.Sprintf("%c/%d", hv[len(hv)-1], len(hv))
